@@ -262,6 +262,9 @@ def peer_recv(seed, idx, fam="peer_recv"):
     st = peer_open_passive(lat, cid=rng.choice([300, 65535, 0]), peer_isn=rng.choice([2000, 65533, 65535]), establish=False) \
         if rng.random() < 0.6 else peer_open_active(lat, peer_isn=rng.choice([1000, 65532]))
     reader = rng.choice(["greedy", "greedy", "slow", "stopped", "dropped"])
+    if rng.random() < 0.15:
+        # the peer's FIN overtakes its very first data (while an accepted connection still waits for the first packet)
+        st += [peer("fin", ahead=rng.choice([1, 1, 2])), sleep(rng.choice([lat + 10, 50000]))]
     if reader == "greedy":
         st.append({"op": "read", "ep": "a"})
     elif reader == "dropped":
